@@ -21,7 +21,10 @@ def sh(*a, **k):
 
 
 def applies(patch, tree):
-    return sh("patch", "-p1", "-s", "-F0", "--dry-run", "-d", tree, "-i", patch).returncode == 0
+    """applies without fuzz AND without offset: a hunk that `patch` had to move may have landed on a look-alike block (two
+    branches of one function with identical context lines) - only an exact position is trusted"""
+    r = sh("patch", "-p1", "-F0", "--dry-run", "-d", tree, "-i", patch)
+    return r.returncode == 0 and "offset" not in r.stdout and "fuzz" not in r.stdout
 
 
 def files_of(patch):
